@@ -244,39 +244,155 @@ def intFromAsciiC (checks : Bool) (I : Spec.IntTy) (neg : Bool) : List Nat → I
           let v := if neg then m - (dv : Nat) else m + (dv : Nat)
           if !I.contains v then .ok none else intFromAsciiC checks I neg ds v
 
-/-- the arms of `decimal_to_int` on the decoded parts.  Besides the digit conversions there are from_int.rs:50
+/-! ### the digit stream of a decimal, decoded on demand
+
+`decode_significand_trailing_declets` (significand.rs:109) is an `iter::from_fn`: nothing is decoded until a consumer asks
+for the next item, and `decimal_to_int` / `decimal_to_binary_float` hand the iterator to consumers that stop asking early
+(`checked_mul(10)?`, `Iterator::all`, `take(k)`, a full scratch buffer).  A declet that is never asked for is never
+decoded, so its panic sites are never reached.  `decodeStepC` is one call of the closure, `Digits` the state of
+`Some(msd.get_ascii()).into_iter().chain(declets.flatten())`, `nextDigitC` one call of its `next`; the consumers below
+are loops over `nextDigitC` that stop exactly where the Rust loops stop. -/
+
+/-- one call of the closure of `iter::from_fn` in `decode_significand_trailing_declets` (significand.rs:116–127) on the
+    captured `bit_index`: `if bit_index > 0 { Some(decode(..)) } else { None }`.  Sites as in `decodeDecletsGoC`:
+    significand.rs:597 `*decimal_bit_index -= 10`, :602/:603 the two byte reads, :815 `unreachable!()`, :288 `bcd + b'0'`. -/
+def decodeStepC (checks : Bool) (b : Buf) (bit : Nat) : Chk (Option (List Nat × Nat)) :=
+  if bit = 0 then .ok none
+  else
+    match subUsize checks "significand.rs:597 *decimal_bit_index -= 10" bit 10 with
+    | .error e => .error e
+    | .ok bit' =>
+      match readDpdC b bit' with
+      | .error e => .error e
+      | .ok dpd =>
+        match bcdOfDpdC dpd with
+        | .error e => .error e
+        | .ok bcd =>
+          match asciiOfBcdC checks bcd with
+          | .error e => .error e
+          | .ok d => .ok (some (d, bit'))
+
+/-- the state of `Some(msd.get_ascii()).into_iter().chain(decode_significand_trailing_declets(decimal).flatten())`
+    (from_int.rs:35–37 and the other arms; from_binary_float.rs:45–47; without the `Some(msd)` at from_binary_float.rs:67):
+    `pending` — the digits already produced and not yet consumed (the front of the `Chain`, then the `[u8; 3]` the `Flatten`
+    is currently walking); `bit` — the closure's `bit_index`; `fuel` — the bound on the number of closure calls, the same
+    fuel as `decodeDecletsGoC`. -/
+structure Digits where
+  pending : List Nat
+  fuel : Nat
+  bit : Nat
+
+/-- the stream at the start: `front` is `[msd.get_ascii()]` or `[]`, `tb` is `trailing_significand_width_bits()`, which
+    `decode_significand_trailing_declets` reads when it is called (significand.rs:112), before any item is asked for -/
+def Digits.start (front : List Nat) (tb : Nat) : Digits := ⟨front, (tb + 9) / 10, tb⟩
+
+/-- an upper bound on the number of digits the stream can still yield; the consumers that Rust writes as unbounded loops
+    (`for b in ascii`, `Iterator::all`) run with `bound + 1` steps of fuel, so that the final `None` is pulled too -/
+def Digits.bound (it : Digits) : Nat := it.pending.length + 3 * it.fuel
+
+/-- `Iterator::next` of the chain: a pending digit if there is one; otherwise `Flatten` asks the declet iterator for
+    its next item (the only place where a declet is decoded) and starts walking it. -/
+def nextDigitC (checks : Bool) (b : Buf) : List Nat → Nat → Nat → Chk (Option (Nat × Digits))
+  | d :: r, k, bit => .ok (some (d, ⟨r, k, bit⟩))
+  | [], 0, _ => .ok none
+  | [], k + 1, bit =>
+    match decodeStepC checks b bit with
+    | .error e => .error e
+    | .ok none => .ok none
+    | .ok (some (ds, bit')) => nextDigitC checks b ds k bit'
+
+def Digits.nextC (checks : Bool) (b : Buf) (it : Digits) : Chk (Option (Nat × Digits)) :=
+  nextDigitC checks b it.pending it.fuel it.bit
+
+/-- the loop of `Integer::try_from_ascii` (num.rs:165–174 / :225–228) over `ascii.take(n)`:
+    `for b in ascii { i = i.checked_mul(10)?; i = i.checked_add((b - b'0') as $i)?; }` — the first overflow returns `None`
+    and nothing more is pulled.  `take(n)` returns `None` without asking the inner iterator once `n` items went by
+    (from_int.rs:66–68); the arms without `take` pass `bound + 1`.  Result: the value, and the stream where the loop left
+    it (`digits.by_ref()`). -/
+def intFromDigitsC (checks : Bool) (b : Buf) (I : Spec.IntTy) (neg : Bool) : Nat → Digits → Int → Chk (Option Int × Digits)
+  | 0, it, acc => .ok (some acc, it)
+  | n + 1, it, acc =>
+    match it.nextC checks b with
+    | .error e => .error e
+    | .ok none => .ok (some acc, it)
+    | .ok (some (d, it')) =>
+      let m := acc * 10
+      if !I.contains m then .ok (none, it')
+      else
+        match subU8 checks "num.rs:167 b - b'0'" d 48 with
+        | .error e => .error e
+        | .ok dv =>
+          let v := if neg then m - (dv : Nat) else m + (dv : Nat)
+          if !I.contains v then .ok (none, it') else intFromDigitsC checks b I neg n it' v
+
+/-- `Integer::try_from_ascii(is_negative, ascii.take(n))`: an unsigned target returns `None` for a negative sign before
+    it asks for any digit (num.rs:222–223) -/
+def tryFromDigitsC (checks : Bool) (b : Buf) (I : Spec.IntTy) (neg : Bool) (n : Nat) (it : Digits) : Chk (Option Int × Digits) :=
+  if neg && !I.signed then .ok (none, it) else intFromDigitsC checks b I neg n it 0
+
+/-- `digits.all(|d| d == b'0')` (from_int.rs:73, :87): stops at the first digit that is not `'0'` -/
+def allZeroC (checks : Bool) (b : Buf) : Nat → Digits → Chk Bool
+  | 0, _ => .ok true
+  | n + 1, it =>
+    match it.nextC checks b with
+    | .error e => .error e
+    | .ok none => .ok true
+    | .ok (some (d, it')) => if d == 48 then allZeroC checks b n it' else .ok false
+
+/-- `decimal_to_int` after `decode_combination_finite`: the `match exp.to_i32()` (from_int.rs:31–94), each arm in the
+    order the Rust code evaluates it.  Besides the digit stream and its consumers there are from_int.rs:50
     `exponent as usize` (a cast of a positive number) and from_int.rs:68
     `decimal.precision_digits() - (exponent.unsigned_abs() as usize)`, guarded by the arm's condition. -/
-def toIntCoreC (T : Ty) (checks : Bool) (I : Spec.IntTy) (neg : Bool) (digits : List Nat) (exponent : Int) (precision : Nat)
-    (fin : Bool) : Chk (Option Int) :=
+def toIntCoreC (T : Ty) (checks : Bool) (b : Buf) (I : Spec.IntTy) (exponent : Int) (msd : Nat) : Chk (Option Int) :=
   let inI32 := T.expIsI32 || (decide (i32Min ≤ exponent) && decide (exponent ≤ i32Max))
-  if neg && !I.signed then .ok none
-  else if inI32 && exponent = 0 then intFromAsciiC checks I neg digits 0
-  else if inI32 && exponent > 0 then
-    match intFromAsciiC checks I neg digits 0 with
-    | .error e => .error e
-    | .ok (some acc) => .ok (intPushZeros I neg exponent.toNat acc)
-    | .ok none => .ok none
-  else if inI32 && exponent.natAbs < precision then
-    match subUsize checks "from_int.rs:68 precision_digits() - exponent.unsigned_abs()" precision exponent.natAbs with
-    | .error e => .error e
-    | .ok k =>
-      match intFromAsciiC checks I neg (digits.take k) 0 with
-      | .error e => .error e
-      | .ok none => .ok none
-      | .ok (some i) => .ok (if (digits.drop k).all (· == 48) then some i else none)
-  else
-    if fin && digits.all (· == 48) then intFromAsciiC checks I neg [48] 0 else .ok none
+  -- `Some(0)`, `±123`, and `Some(exponent) if exponent > 0`, `±123e1`
+  if inI32 && (exponent = 0 || exponent > 0) then do
+    let tb ← trailingBitsC checks b
+    let msdA ← bcdToAsciiC checks msd
+    let neg ← isSignNegativeC checks b
+    let it := Digits.start [msdA] tb
+    let r ← tryFromDigitsC checks b I neg (it.bound + 1) it
+    match r.1 with
+    | none => .ok none
+    -- `.chain(iter::repeat(b'0').take(exponent as usize))`: the zeros go through the same loop after the digits
+    | some acc => .ok (if exponent = 0 then some acc else intPushZeros I neg exponent.toNat acc)
+  else do
+    -- the guard `(exponent.unsigned_abs() as usize) < decimal.precision_digits()` is evaluated for `Some(exponent)` only
+    let arm3 ← (if inI32 then do
+        let p ← precisionC checks b
+        .ok (if exponent.natAbs < p then some p else none)
+      else (.ok none : Chk (Option Nat)))
+    match arm3 with
+    | some p => do
+      -- `±1230e-1`
+      let tb ← trailingBitsC checks b
+      let msdA ← bcdToAsciiC checks msd
+      let neg ← isSignNegativeC checks b
+      let k ← subUsize checks "from_int.rs:68 precision_digits() - exponent.unsigned_abs()" p exponent.natAbs
+      let r ← tryFromDigitsC checks b I neg k (Digits.start [msdA] tb)
+      match r.1 with
+      | none => .ok none
+      | some i => do
+        let z ← allZeroC checks b (r.2.bound + 1) r.2
+        .ok (if z then some i else none)
+    | none => do
+      -- `_`: `is_finite(decimal) && digits.all(|d| d == b'0')`, then `try_from_ascii(.., iter::once(b'0'))`
+      let msdA ← bcdToAsciiC checks msd
+      let tb ← trailingBitsC checks b
+      let fin ← isFiniteC checks b
+      if fin then do
+        let it := Digits.start [msdA] tb
+        let z ← allZeroC checks b (it.bound + 1) it
+        if z then do
+          let neg ← isSignNegativeC checks b
+          intFromAsciiC checks I neg [48] 0
+        else .ok none
+      else .ok none
 
-/-- `decimal_to_int` -/
+/-- `decimal_to_int` (from_int.rs:28) -/
 def toIntC (T : Ty) (checks : Bool) (b : Buf) (I : Spec.IntTy) : Chk (Option Int) := do
   let em ← decodeCombinationFiniteC T.expRep checks b
-  let msdA ← bcdToAsciiC checks em.2
-  let declets ← decodeDecletsC checks b
-  let neg ← isSignNegativeC checks b
-  let p ← precisionC checks b
-  let fin ← isFiniteC checks b
-  toIntCoreC T checks I neg (msdA :: declets.flatten) em.1 p fin
+  toIntCoreC T checks b I em.1 em.2
 
 /-! ## `encode_max` / `encode_min` (binary.rs:23, :36) -/
 
